@@ -368,6 +368,22 @@ theorem funded_tx_executes (h : Handler) (prices : List Nat) (tx : Tx) (v : View
   rw [hu] at hu'; simp at hu'; subst hu'
   rw [hf] at hf'; simp at hf'; rw [hfee, hf']
 
+/-- **C03 (g)** block-level layer (view → block diff → parent storage): committing a
+transaction publishes exactly the view's visible values — after the commit the block's visible
+map *is* the map the transaction left (so every applied effect of a successful transaction,
+including re-creating a key an earlier transaction of the block deleted with the value it had
+before the block, is visible to the rest of the block and in the block's result); a transaction
+that errors leaves the block diff untouched; the parent storage is never modified. -/
+theorem commit_publishes (rules : Rules) (h : Handler) (prices : List Nat) (now : Int)
+    (scope : Key → Nat) (tx : Tx) (b : Block) :
+    (processTxB rules h prices now scope tx b).1.visible =
+      (processTx rules h prices now scope tx b.visible).1 ∧
+    (processTxB rules h prices now scope tx b).2 = (processTx rules h prices now scope tx b.visible).2 ∧
+    (processTxB rules h prices now scope tx b).1.parent = b.parent ∧
+    ∀ cur, (b.commit cur).visible = cur :=
+  ⟨(processTxB_visible rules h prices now scope tx b).1, (processTxB_visible rules h prices now scope tx b).2.1,
+   (processTxB_visible rules h prices now scope tx b).2.2, commit_visible b⟩
+
 /-! ## non-vacuity: concrete executions (one succeeds, one fails after writing) -/
 
 def exKey : Key := [0xaa, 0, 1]
